@@ -1250,7 +1250,7 @@ func main() {
 	// one structural case: the access table extracted from the current source; Coq checks that the atomic steps
 	// of the LTS (LSect, LEnq) are single critical sections in the code (Sched/Access.v granularity_ok)
 	if o.Replay == "" {
-		if acc, err := astacc.Collect("/repo"); err == nil {
+		if acc, err := astacc.Collect(astacc.RepoDir()); err == nil {
 			var terms []string
 			for _, a := range acc {
 				terms = append(terms, astacc.CoqAcc(a))
